@@ -166,6 +166,7 @@ pub fn run_live(rep: &mut Report, targets: u64, per_target: u64) {
                 let walking = if rng.chance(1, 4) { Some(rng.usize_below(45)) } else { None };
                 o.crash = Some(random_crash(&mut rng, blamed, rsp, rip, walking));
             }
+            t.settle();
             let (out, _) = {
                 let _g = dump::DUMP_LOCK.lock().unwrap_or_else(|e| e.into_inner());
                 dump::dump(&o)
